@@ -149,8 +149,15 @@ func init() {
 		}
 		c.Ev.S.Exhaustive["operator_x_operand_pair_grid"] = done
 		cfg := gen.Cfg{ExprDepth: 5, BodyLen: 2, Nest: 0, Calls: true, Carriers: true}
-		sub.Rapid(c, c.Share(c.Pick(30000, 2000000)), func(t *rapid.T) *progCase {
+		sub.Rapid(c, c.Share(c.Pick(24000, 1600000)), func(t *rapid.T) *progCase {
 			g := &gen.G{T: t, C: cfg}
+			return &progCase{P: g.Program()}
+		})
+		// the same expression node evaluated repeatedly with changing operands
+		// (loop bodies): stale per-node state in the evaluator shows up here
+		cfgLoop := gen.Cfg{ExprDepth: 4, BodyLen: 3, Nest: 2, Calls: true, Carriers: true, For: true, If: true}
+		sub.Rapid(c, c.Share(c.Pick(8000, 400000)), func(t *rapid.T) *progCase {
+			g := &gen.G{T: t, C: cfgLoop}
 			return &progCase{P: g.Program()}
 		})
 	}
